@@ -38,19 +38,19 @@ Definition w0_plan : list step := [Move 1 0 1 2; Move 3 0 2 1].
 (* k=1: n2 is full *)
 Definition w1_snap : snapshot := [ mknode 1 1 1 2 [mkvol 1 0 10 false]; mknode 1 1 2 1 [mkvol 3 0 10 false] ].
 Definition w1_events : list eevent := [EMove 1 0 2].
-(* k=2: two 001 volumes lack a copy, n2 has one free slot *)
+(* repaired (formerly finding 2): two 001 volumes lack a copy, n2 has one free slot *)
 Definition w2_snap : snapshot :=
   [ mknode 1 1 1 4 [mkvol 1 1 10 false; mkvol 2 1 10 false];
     mknode 1 1 2 3 [mkvol 3 0 10 false; mkvol 4 0 10 false] ].
-Definition w2_events : list fevent := [FCopy 1 1 2; FCopy 2 1 2].
-(* k=3: -retry 1 *)
+Definition w2_events : list fevent := [FCopy 1 1 2; FNoPlace 2].
+(* repaired (formerly finding 3): -retry 1 *)
 Definition w3_snap : snapshot := [ mknode 1 1 1 4 [mkvol 1 1 10 false]; mknode 1 1 2 4 []; mknode 1 1 3 4 [] ].
-Definition w3_events : list fevent := [FCopy 1 1 2; FCopy 1 1 2].
-(* k=4: volume 1 (000) writable on n1, read-only on n2 *)
+Definition w3_events : list fevent := [FCopy 1 1 2].
+(* repaired (formerly finding 4): volume 1 (000) writable on n1, read-only on n2 *)
 Definition w4_snap : snapshot :=
   [ mknode 1 1 1 4 [mkvol 1 0 10 false; mkvol 2 0 10 false]; mknode 1 1 2 4 [mkvol 1 0 10 true] ].
-Definition w4_plan : list step := [Move 1 0 1 2].
-(* k=5: replication 120 laid out as 3 racks + 1 *)
+Definition w4_plan : list step := [Move 2 0 1 2].
+(* k=2: replication 120 laid out as 3 racks + 1 *)
 Definition w5_snap : snapshot :=
   [ mknode 1 1 1 4 [mkvol 1 120 10 false]; mknode 1 2 2 4 [mkvol 1 120 10 false];
     mknode 1 3 3 4 [mkvol 1 120 10 false]; mknode 2 1 4 4 [mkvol 1 120 10 false]; mknode 2 2 5 4 [] ].
@@ -68,22 +68,24 @@ Lemma w1_facts : wf_snapb w1_snap = true /\ evac_accepts w1_snap 1 true w1_event
   ok_cap (prop_trace w1_snap (init_world w1_snap) (evac_steps 1 w1_events)) = false.
 Proof. vm_compute. auto. Qed.
 
-Lemma w2_facts : wf_snapb w2_snap = true /\ fix_accepts w2_snap 0 w2_events = true /\
-  ok_cap (prop_trace w2_snap (init_world w2_snap) (fix_steps w2_events)) = false.
+Lemma w2_facts : wf_snapb w2_snap = true /\ counts_okb w2_snap = true /\
+  fix_accepts w2_snap 0 w2_events = true /\
+  fix_accepts w2_snap 0 [FCopy 1 1 2; FCopy 2 1 2]%N = false /\
+  v4_all (prop_trace w2_snap (init_world w2_snap) (fix_steps w2_events)) = true.
 Proof. vm_compute. auto. Qed.
 
 Lemma w3_facts : wf_snapb w3_snap = true /\ fix_accepts w3_snap 1 w3_events = true /\
-  ok_coloc (prop_trace w3_snap (init_world w3_snap) (fix_steps w3_events)) = false /\
-  ok_repair (prop_trace w3_snap (init_world w3_snap) (fix_steps w3_events)) = false.
+  fix_accepts w3_snap 1 [FCopy 1 1 2; FCopy 1 1 2]%N = false /\
+  v4_all (prop_trace w3_snap (init_world w3_snap) (fix_steps w3_events)) = true.
 Proof. vm_compute. auto. Qed.
 
 Lemma w4_facts : wf_snapb w4_snap = true /\
   is_some (balance_accepts 1000 w4_snap [None] [0%N] w4_plan) = true /\
-  ok_coloc (prop_trace w4_snap (init_world w4_snap) w4_plan) = false.
+  is_some (balance_accepts 1000 w4_snap [None] [0%N] [Move 1 0 1 2]%N) = false /\
+  v4_all (prop_trace w4_snap (init_world w4_snap) w4_plan) = true.
 Proof. vm_compute. auto. Qed.
 
 Lemma w5_facts : wf_snapb w5_snap = true /\ evac_accepts w5_snap 3 true w5_events = true /\
-  trig_coloc_000 w5_snap = false /\
   ok_pres (prop_trace w5_snap (init_world w5_snap) (evac_steps 3 w5_events)) = false.
 Proof. vm_compute. auto. Qed.
 
